@@ -104,86 +104,157 @@ def deHelper (h : String) (ty : RTy) (j : Json) : D Val :=
 
 def countKey (k : String) (kvs : List (String × Json)) : Nat := (kvs.filter (·.1 == k)).length
 
-mutual
-  def deTy (e : Env) (b : Bool) : Nat → RTy → Json → D Val
-    | 0, _, _ => unmodelled "fuel"
-    | fuel+1, .opt t, j => if j == .null then pure .unit else Val.some <$> deTy e b fuel t j
-    | fuel+1, .vec t, j => match j with
-      | .arr xs => Val.list <$> xs.mapM (deTy e b fuel t)
-      | _ => bad "expected a sequence"
-    | fuel+1, .box t, j => deTy e b fuel t j
-    | fuel+1, .path p, j => dePath e b fuel p j
+/-! ### building blocks, parametric in "how a named type is read"
 
+`path p j` reads JSON `j` at the named type `p`.  Everything that is not a jump to a named type
+(Option / Vec / Box nesting, the field loop of a struct, tag dispatch) is structural and lives here,
+outside the fuel-indexed recursion. -/
+
+/-- `Option` / `Vec` / `Box` nesting around named types -/
+def deTyWith (path : String → Json → D Val) : RTy → Json → D Val
+  | .opt t, j => if j == .null then pure .unit else Val.some <$> deTyWith path t j
+  | .vec t, j => match j with
+    | .arr xs => Val.list <$> xs.mapM (deTyWith path t)
+    | _ => bad "expected a sequence"
+  | .box t, j => deTyWith path t j
+  | .path p, j => path p j
+
+def deFieldWith (path : String → Json → D Val) (f : RField) (j : Json) : D Val :=
+  match f.deserWith with
+  | some h => deHelper h f.ty j
+  | none => deTyWith path f.ty j
+
+/-- what a missing key means for a field -/
+def missingField (f : RField) : D Val :=
+  if f.default then pure .unit
+  else if f.deserWith.isSome then bad ("missing field " ++ f.wire)
+  else if isOption f.ty then pure .unit
+  else bad ("missing field " ++ f.wire)
+
+/-- own (non-flattened) fields of a struct from the entries that carry their keys -/
+def deOwnWith (path : String → Json → D Val) : List RField → List (String × Json) → D (List (String × Val))
+  | [], _ => pure []
+  | f :: fs, kvs => do
+    let rest ← deOwnWith path fs kvs
+    if f.flatten then pure rest else
+    if countKey f.wire kvs > 1 then bad ("duplicate field " ++ f.wire) else
+    match Json.lookup f.wire kvs with
+    | some j => do pure ((f.rust, ← deFieldWith path f j) :: rest)
+    | none => do pure ((f.rust, ← missingField f) :: rest)
+
+/-- flattened members, in field order, each read from what the previous ones left in the buffer -/
+def deFlatsWith (flat : RTy → Buf → D (Val × Buf)) : List RField → Buf → D (List (String × Val))
+  | [], _ => pure []
+  | f :: fs, buf =>
+    if !f.flatten then deFlatsWith flat fs buf else do
+    let (v, buf') ← flat f.ty buf
+    let rest ← deFlatsWith flat fs buf'
+    pure ((f.rust, v) :: rest)
+
+/-- struct read from a map (`visit_map`): own keys first, the rest buffered for flattened members -/
+def deStructMapWith (path : String → Json → D Val) (flat : RTy → Buf → D (Val × Buf))
+    (fields : List RField) (kvs : List (String × Json)) : D Val := do
+  let own ← deOwnWith path fields kvs
+  if fields.any (·.flatten) then
+    let ownKeys := (fields.filter (!·.flatten)).map (·.wire)
+    let buf : Buf := (kvs.filter (fun kv => !ownKeys.contains kv.1)).map some
+    let fl ← deFlatsWith flat fields buf
+    -- keep declaration order
+    pure (.record (fields.filterMap fun f => (own ++ fl).find? (·.1 == f.rust)))
+  else pure (.record own)
+
+def deStructWith (path : String → Json → D Val) (flat : RTy → Buf → D (Val × Buf))
+    (fields : List RField) (j : Json) : D Val :=
+  match j with
+  | .obj kvs => deStructMapWith path flat fields kvs
+  | .arr xs =>
+    if fields.any (·.flatten) then bad "expected a map" else
+    -- `visit_seq`: positional, every field must be present
+    if xs.length < fields.length then bad "invalid length" else
+    (fun vs => Val.record vs) <$> (fields.zip xs).mapM (fun (f, x) => do pure (f.rust, ← deFieldWith path f x))
+  | _ => bad "expected a struct"
+
+/-- internally tagged enum from map entries; `buffered`: the entries come from buffered content
+    (`ContentDeserializer`), where serde's variant identifier also accepts the variant *index*;
+    `pathB` reads the payload (always from buffered content) -/
+def deTaggedWith (pathB : String → Json → D Val) (buffered : Bool) (tag : String) (vs : List RVariant)
+    (kvs : List (String × Json)) : D Val :=
+  match countKey tag kvs with
+  | 0 => bad ("missing field " ++ tag)
+  | 1 =>
+    let rest := kvs.filter (·.1 != tag)
+    let pick (v : RVariant) : D Val :=
+      if v.other then pure (.variant v.name none) else
+      match v.payload with
+      | none => pure (.variant v.name none)
+      | some t => (fun x => Val.variant v.name (some x)) <$> deTyWith pathB t (.obj rest)
+    match Json.lookup tag kvs with
+    | some (.str name) =>
+      match vs.find? (fun v => !v.other && v.wire == name) with
+      | some v => pick v
+      | none => match vs.find? (·.other) with
+        | some o => pure (.variant o.name none)
+        | none => bad "unknown variant"
+    | some (.int n) =>
+      -- serde_json's own `deserialize_identifier` only accepts strings
+      if !buffered then bad "tag is not a string" else
+      if n < 0 then bad "tag is a negative integer" else
+      match vs[n.toNat]? with
+      | some v => pick v
+      | none => match vs.find? (·.other) with
+        | some o => pure (.variant o.name none)
+        | none => bad "variant index out of range"
+    | _ => bad "tag is neither a string nor an index"
+  | _ => bad ("duplicate field " ++ tag)
+
+/-- the built-in leaf types -/
+def dePrim (p : String) (j : Json) : Option (D Val) :=
+  if p == "String" then some (match j with | .str s => pure (.str s) | _ => bad "expected a string")
+  else if p == "i64" then some (match j with
+    | .int n => if inI64 n then pure (.int n) else bad "integer out of range"
+    | _ => bad "expected an integer")
+  else if p == "f64" then some (match j with
+    | .int n => pure (.float (.int n))
+    | .num t => pure (.float (.num t))
+    | _ => bad "expected a number")
+  else if p == "bool" then some (match j with | .bool b => pure (.bool b) | _ => bad "expected a boolean")
+  else none
+
+mutual
+  /-- read `j` at the named type `p`; `b`: `j` comes from buffered content.  Fuel counts jumps to
+      named types only (alias hops, struct / enum nesting). -/
   def dePath (e : Env) (b : Bool) : Nat → String → Json → D Val
     | 0, _, _ => unmodelled "fuel"
     | fuel+1, p, j =>
-      if p == "String" then (match j with | .str s => pure (.str s) | _ => bad "expected a string")
-      else if p == "i64" then (match j with
-        | .int n => if inI64 n then pure (.int n) else bad "integer out of range"
-        | _ => bad "expected an integer")
-      else if p == "f64" then (match j with
-        | .int n => pure (.float (.int n))
-        | .num t => pure (.float (.num t))
-        | _ => bad "expected a number")
-      else if p == "bool" then (match j with | .bool b => pure (.bool b) | _ => bad "expected a boolean")
-      else match e.find p with
-        | some (.alias _ _ t) => deTy e b fuel t j
-        | some (.struct _ _ _ fields) => deStruct e b fuel fields j
-        | some (.unitStruct ..) => if j == .null then pure .unit else bad "expected unit"
-        | some (.tagged _ _ _ tag vs) => (match j with
-          | .obj kvs => deTagged e b fuel tag vs kvs
-          | .arr _ => unmodelled "internally tagged enum from a sequence"
-          | _ => bad "expected a map for an internally tagged enum")
-        | some (.gqlEnum _ _ _ _ _ de) => (match j with
-          | .str s => match de.find? (·.1 == s) with
-            | some (_, v) => pure (.variant v none)
-            | none => pure (.enumOther s)
-          | _ => bad "expected a string")
-        | some (.oneOf _ _ _ vs) => (match j with
-          | .obj [(k, v)] => match vs.find? (·.wire == k) with
-            | some var => (match var.payload with
-              | some t => (fun x => Val.variant var.name (some x)) <$> deTy e b fuel t v
-              | none => unmodelled "unit @oneOf variant")
-            | none => bad "unknown variant"
-          | _ => bad "expected a map with a single key")
-        | some (.defaults _) => unmodelled "impl"
-        | none => match e.externs.find? (·.1 == p) with
-          | some (_, t) => deTy e b fuel t j
-          | none => unmodelled ("type " ++ p)
-
-  def deField (e : Env) (b : Bool) : Nat → RField → Json → D Val
-    | 0, _, _ => unmodelled "fuel"
-    | fuel+1, f, j => match f.deserWith with
-      | some h => deHelper h f.ty j
-      | none => deTy e b fuel f.ty j
-
-  /-- own (non-flattened) fields of a struct from the entries that carry their keys -/
-  def deOwn (e : Env) (b : Bool) : Nat → List RField → List (String × Json) → D (List (String × Val))
-    | 0, _, _ => unmodelled "fuel"
-    | _, [], _ => pure []
-    | fuel+1, f :: fs, kvs => do
-      let rest ← deOwn e b fuel fs kvs
-      if f.flatten then pure rest else
-      if countKey f.wire kvs > 1 then bad ("duplicate field " ++ f.wire) else
-      match Json.lookup f.wire kvs with
-      | some j => do pure ((f.rust, ← deField e b fuel f j) :: rest)
+      match dePrim p j with
+      | some r => r
       | none =>
-        if f.default then pure ((f.rust, .unit) :: rest)
-        else if f.deserWith.isSome then bad ("missing field " ++ f.wire)
-        else if isOption f.ty then pure ((f.rust, .unit) :: rest)
-        else bad ("missing field " ++ f.wire)
+      match e.find p with
+      | some (.alias _ _ t) => deTyWith (dePath e b fuel) t j
+      | some (.struct _ _ _ fields) => deStructWith (dePath e b fuel) (deFlat e fuel) fields j
+      | some (.unitStruct ..) => if j == .null then pure .unit else bad "expected unit"
+      | some (.tagged _ _ _ tag vs) => (match j with
+        | .obj kvs => deTaggedWith (dePath e true fuel) b tag vs kvs
+        | .arr _ => unmodelled "internally tagged enum from a sequence"
+        | _ => bad "expected a map for an internally tagged enum")
+      | some (.gqlEnum _ _ _ _ _ de) => (match j with
+        | .str s => match de.find? (·.1 == s) with
+          | some (_, v) => pure (.variant v none)
+          | none => pure (.enumOther s)
+        | _ => bad "expected a string")
+      | some (.oneOf _ _ _ vs) => (match j with
+        | .obj [(k, v)] => match vs.find? (·.wire == k) with
+          | some var => (match var.payload with
+            | some t => (fun x => Val.variant var.name (some x)) <$> deTyWith (dePath e b fuel) t v
+            | none => unmodelled "unit @oneOf variant")
+          | none => bad "unknown variant"
+        | _ => bad "expected a map with a single key")
+      | some (.defaults _) => unmodelled "impl"
+      | none => match e.externs.find? (·.1 == p) with
+        | some (_, t) => deTyWith (dePath e b fuel) t j
+        | none => unmodelled ("type " ++ p)
 
-  /-- flattened members, in field order, from the buffer -/
-  def deFlats (e : Env) : Nat → List RField → Buf → D (List (String × Val))
-    | 0, _, _ => unmodelled "fuel"
-    | _, [], _ => pure []
-    | fuel+1, f :: fs, buf =>
-      if !f.flatten then deFlats e fuel fs buf else do
-      let (v, buf') ← deFlat e fuel f.ty buf
-      let rest ← deFlats e fuel fs buf'
-      pure ((f.rust, v) :: rest)
-
-  /-- one flattened member from a `FlatMapDeserializer` -/
+  /-- one flattened member from a `FlatMapDeserializer` (its content is always buffered) -/
   def deFlat (e : Env) : Nat → RTy → Buf → D (Val × Buf)
     | 0, _, _ => unmodelled "fuel"
     | fuel+1, .box t, buf => deFlat e fuel t buf
@@ -193,77 +264,21 @@ mutual
       | some (.struct _ _ _ fields) =>
         if fields.any (·.flatten) then do
           -- `deserialize_map`: sees every remaining entry, takes none
-          let v ← deStructMap e true fuel fields (present buf)
+          let v ← deStructMapWith (dePath e true fuel) (deFlat e fuel) fields (present buf)
           pure (v, buf)
         else do
           -- `deserialize_struct`: takes the entries it recognises
           let (taken, buf') := takeKeys (fields.map (·.wire)) buf
-          let own ← deOwn e true fuel fields taken
+          let own ← deOwnWith (dePath e true fuel) fields taken
           pure (.record own, buf')
       | some (.tagged _ _ _ tag vs) => do
-        let v ← deTagged e true fuel tag vs (present buf)
+        let v ← deTaggedWith (dePath e true fuel) true tag vs (present buf)
         pure (v, buf)
       | _ => unmodelled ("flatten of " ++ p)
     | _+1, _, _ => unmodelled "flatten of a non-struct type"
-
-  /-- struct read from a map (`visit_map`): own keys first, the rest buffered for flattened members -/
-  def deStructMap (e : Env) (b : Bool) : Nat → List RField → List (String × Json) → D Val
-    | 0, _, _ => unmodelled "fuel"
-    | fuel+1, fields, kvs => do
-      let own ← deOwn e b fuel fields kvs
-      if fields.any (·.flatten) then
-        let ownKeys := (fields.filter (!·.flatten)).map (·.wire)
-        let buf : Buf := (kvs.filter (fun kv => !ownKeys.contains kv.1)).map some
-        let fl ← deFlats e fuel fields buf
-        -- keep declaration order
-        pure (.record (fields.filterMap fun f => (own ++ fl).find? (·.1 == f.rust)))
-      else pure (.record own)
-
-  def deStruct (e : Env) (b : Bool) : Nat → List RField → Json → D Val
-    | 0, _, _ => unmodelled "fuel"
-    | fuel+1, fields, j => match j with
-      | .obj kvs => deStructMap e b fuel fields kvs
-      | .arr xs =>
-        if fields.any (·.flatten) then bad "expected a map" else
-        -- `visit_seq`: positional, every field must be present
-        if xs.length < fields.length then bad "invalid length" else
-        (fun vs => Val.record vs) <$> (fields.zip xs).mapM (fun (f, x) => do pure (f.rust, ← deField e b fuel f x))
-      | _ => bad "expected a struct"
-
-  /-- internally tagged enum from map entries -/
-  def deTagged (e : Env) (b : Bool) : Nat → String → List RVariant → List (String × Json) → D Val
-    | 0, _, _, _ => unmodelled "fuel"
-    | fuel+1, tag, vs, kvs =>
-      match countKey tag kvs with
-      | 0 => bad ("missing field " ++ tag)
-      | 1 =>
-        let rest := kvs.filter (·.1 != tag)
-        let pick (v : RVariant) : D Val :=
-          if v.other then pure (.variant v.name none) else
-          match v.payload with
-          | none => pure (.variant v.name none)
-          | some t => (fun x => Val.variant v.name (some x)) <$> deTy e true fuel t (.obj rest)
-        match Json.lookup tag kvs with
-        | some (.str name) =>
-          match vs.find? (fun v => !v.other && v.wire == name) with
-          | some v => pick v
-          | none => match vs.find? (·.other) with
-            | some o => pure (.variant o.name none)
-            | none => bad "unknown variant"
-        | some (.int n) =>
-          -- from buffered content (`ContentDeserializer::deserialize_identifier`) serde's variant
-          -- identifier also accepts the variant *index* (`visit_u64`); serde_json's own
-          -- `deserialize_identifier` only accepts strings
-          if !b then bad "tag is not a string" else
-          if n < 0 then bad "tag is a negative integer" else
-          match vs[n.toNat]? with
-          | some v => pick v
-          | none => match vs.find? (·.other) with
-            | some o => pure (.variant o.name none)
-            | none => bad "variant index out of range"
-        | _ => bad "tag is neither a string nor an index"
-      | _ => bad ("duplicate field " ++ tag)
 end
+
+def deTy (e : Env) (b : Bool) (fuel : Nat) (t : RTy) (j : Json) : D Val := deTyWith (dePath e b fuel) t j
 
 -- fuel: every step either descends into the JSON value, into a type expression or along an alias
 -- / field list; `size json + #items + longest type` levels, times the longest field list, is ample
@@ -286,8 +301,8 @@ def itemWidth : Item → Nat
   | .oneOf _ _ _ vs => vs.length
   | _ => 1
 
-def deFuel (e : Env) (j : Json) : Nat :=
-  (jsonSize j + e.items.length + 8) * ((e.items.map itemWidth).foldl max 4 + 4)
+/-- jumps to named types: at most one per JSON nesting level plus an alias chain per level -/
+def deFuel (e : Env) (j : Json) : Nat := (jsonSize j + 2) * (e.items.length + e.externs.length + 2)
 
 /-- top level: read directly from the JSON text (not from buffered content) -/
 def de (e : Env) (t : RTy) (j : Json) : D Val := deTy e false (deFuel e j) t j
